@@ -788,6 +788,16 @@ class Interp(object):
         mod = getattr(cls, '__module__', '') or ''
         ours = any(mod == p or mod.startswith(p + '.') for p in self.prefixes)
         if not ours:
+            # a class defined elsewhere (e.g. in a contract) that inherits the package's __init__/__new__
+            for nm in ('__init__', '__new__'):
+                for klass in cls.__mro__:
+                    if nm in klass.__dict__:
+                        f = klass.__dict__[nm]
+                        f = f.__func__ if isinstance(f, staticmethod) else f
+                        if isinstance(f, types.FunctionType) and self.interpretable(f):
+                            ours = True
+                        break
+        if not ours:
             bm = BUILTIN_MODELS.get(cls)
             if bm is not None and _has_sym(args, kwargs):
                 return bm(self, *args, **kwargs)
